@@ -106,8 +106,10 @@ Definition cp_stamped (c : N) (e : N * list N) : bool := cp_mem c (snd e).
 Definition cp_sweep (c : N) (dry : bool) (a : list (N * list N)) : list (N * list N) * N :=
   (if dry then a else filter (cp_stamped c) a, N.of_nat (length (filter (fun e => negb (cp_stamped c e)) a))).
 
+(* cleanup: the run's id is always on the list of ids to delete; when that list is as long as the xattr's id map
+   (one id, whichever) the whole xattr is removed, otherwise the run's id only *)
 Definition cp_cleanup (c : N) (a : list (N * list N)) : list (N * list N) :=
-  map (fun e => (fst e, filter (fun x => negb (x =? c)) (snd e))) a.
+  map (fun e => (fst e, match snd e with [_] => [] | l => filter (fun x => negb (x =? c)) l end)) a.
 
 Record cp_runin := CpRun {
   cp_rid : N;                 (* the id Init generates when it starts a new run *)
